@@ -160,10 +160,11 @@ class AdaptiveCollocation(ConvergenceController):
                     me[:] = np.reshape(u_inter[i], P.init[0])
                     L.u[i] = me
 
-            # reevaluate rhs
+            # reevaluate rhs at the initial time and at the new nodes
             for i in range(L.sweep.coll.num_nodes + 1):
                 if L.u[i] is not None:
-                    L.f[i] = L.prob.eval_f(L.u[i], L.time)
+                    t_i = L.time if i == 0 else L.time + L.dt * L.sweep.coll.nodes[i - 1]
+                    L.f[i] = L.prob.eval_f(L.u[i], t_i)
 
         # log the new parameters
         self.log(f'Switching to collocation {self.status.active_coll + 1} of {self.params.num_colls}', S, level=20)
